@@ -752,6 +752,14 @@ class _ExprMixin:
         return and_(*res) if len(res) > 1 else res[0]
 
     def cmp(self, op, a, b):
+        if op in ("eq", "ne"):
+            # sequences of known length compare element by element
+            sa_, sb_ = self.seq_elems(a), self.seq_elems(b)
+            if sa_ is not None and sb_ is not None and (isinstance(a, Ref) or isinstance(b, Ref)):
+                if len(sa_) != len(sb_):
+                    return Const(op == "ne")
+                r = and_(*[compare("eq", x, y) for x, y in zip(sa_, sb_)])
+                return r if op == "eq" else not_(r)
         if op in ("in", "notin"):
             b2 = self.simp(b)
             if isinstance(b2, Const) and isinstance(b2.v, (tuple, list, frozenset)) and 0 < len(b2.v) <= 6 and not isinstance(a, Const) \
@@ -783,6 +791,15 @@ class _ExprMixin:
                     # membership in a cache-like dict: opaque but keyed on object
                     return Op(op, a, b2)
         return compare(op, a, b)
+
+    def seq_elems(self, v):
+        v = self.simp(v)
+        if isinstance(v, Const) and isinstance(v.v, tuple):
+            return [Const(x) for x in v.v]
+        lo = self.as_list(v)
+        if lo is not None and lo.concrete() and lo.typ in ("tuple", "list"):
+            return [i[1] for i in lo.items]
+        return None
 
     def ev_IfExp(self, n):
         c = self.truth(self.ev(n.test))
@@ -1388,6 +1405,29 @@ class _CallMixin:
             self.call_func(init.info, ref, args, kwargs, node)
         elif base_exc:
             inst.attrs["args"] = self.mk_list(args, "tuple")
+        else:
+            # class X(namedtuple('X', [...])): the fields become attributes
+            for b in cinfo.node.bases:
+                if isinstance(b, ast.Call) and (getattr(b.func, "id", None) == "namedtuple" or getattr(b.func, "attr", None) == "namedtuple"):
+                    nt = self.ev_in_module(b, cinfo.module.name)
+                    names = None
+                    if isinstance(nt, Op) and nt.op == "namedtuple" and len(nt.args) > 1:
+                        flds = nt.args[1]
+                        if isinstance(flds, Const) and isinstance(flds.v, tuple):
+                            names = list(flds.v)
+                        elif isinstance(flds, Const) and isinstance(flds.v, str):
+                            names = flds.v.replace(",", " ").split()
+                        else:
+                            lo = self.as_list(flds)
+                            if lo is not None and lo.concrete() and all(is_const(i[1], str) for i in lo.items):
+                                names = [i[1].v for i in lo.items]
+                    if names is None:
+                        raise AnalysisError("namedtuple base of %s with non-constant fields" % cinfo.qual)
+                    vals = list(args) + [kwargs[nm] for nm in names[len(args):] if nm in kwargs]
+                    if len(vals) != len(names):
+                        raise AnalysisError("%s(...) called with %d of %d fields" % (cinfo.qual, len(vals), len(names)))
+                    for nm, v in zip(names, vals):
+                        inst.attrs[nm] = v
         return ref
 
     def call_func(self, finfo, selfv, args, kwargs, node):
@@ -2111,7 +2151,12 @@ class _LoopMixin:
             if o in carried_objs and isinstance(o, ListObj):
                 mine = [it for it in o.items if it[0] == "rep" and it[1] is L]
                 other = [it for it in o.items if not (it[0] == "rep" and it[1] is L)]
-                if all(it[3] == TRUE and not (isinstance(it[2], Op) and it[2].op in ("splat",) or (isinstance(it[2], Op) and it[2].op.startswith("listmut")))
+                entry = getattr(L, "entry_guard_set", set())
+
+                def always(g):
+                    """holds in every iteration: true, or made of conditions that held when the loop was entered"""
+                    return g == TRUE or all(c in entry for c in (g.args if isinstance(g, Op) and g.op == "and" else (g,)))
+                if all(always(it[3]) and not (isinstance(it[2], Op) and it[2].op in ("splat",) or (isinstance(it[2], Op) and it[2].op.startswith("listmut")))
                        for it in mine) and all(it[0] == "v" and it[2] == TRUE and not (isinstance(it[1], Op) and (it[1].op == "splat" or it[1].op.startswith("listmut")))
                                                for it in other) and len(other) == len(snap_items(snap, oid)):
                     L.list_growth[oid] = (len(other), len(mine))
@@ -2271,6 +2316,7 @@ class _LoopMixin:
         self.loop_ctx.append(L)
         pushed = 0
         pre_set = flat_set(self.cur_guard_list(state=True))
+        L.entry_guard_set = pre_set
         try:
             if L.kind == "while":
                 c = self.truth(self.ev(st.test))
@@ -2678,6 +2724,20 @@ class _ExtMixin:
                 t = self.truth(it[2])
                 hits.append(Op("exists", Const(it[1].lid), and_(it[3], t if want else not_(t))))
         return or_(*hits)
+
+    def x_filter(self, a, k, n):
+        if len(a) == 2:
+            els = self.concrete_iter(self.simp(a[1]))
+            if els is not None and len(els) <= UNROLL_MAX:
+                res = self.mk_list([])
+                o = self.heap[res.oid]
+                for e in els:
+                    keep = self.truth(e) if (isinstance(a[0], Const) and a[0].v is None) else self.truth(self.call_value(a[0], [e], {}, n))
+                    if keep == FALSE:
+                        continue
+                    o.items.append(("v", e, keep))
+                return res
+        return None
 
     def x_map(self, a, k, n):
         if len(a) == 2:
